@@ -55,8 +55,32 @@ def generate(rng, n, tier="quick"):
     out = []
     for i, ch in enumerate(chunks()):
         out.append(({"kind": "escape", "s": ch, "id": "%s-esc-%03d" % (ID, i)}, {"mode": "escape", "s": ch}))
+    # directed: a tag whose NAME is a subexpression, {{(lookup o "k")}}: its value is written like any other value – escaped once in
+    # {{ }}, as it is in {{{ }}} – also between texts and inside a block
+    dk = 0
+    for esc in ("html", "mark", "none"):
+        for val in ["<b>&\"'`=</b>", "a&b", 5, True, ["<", ">"], {"k": "&"}, ""]:
+            txt = ref.render_value(val)
+            e = escape_of(esc)(txt)
+            src = "x{{(lookup o \"k\")}}|{{{(lookup o \"k\")}}}|{{#if t}}{{(lookup o \"k\")}}{{/if}}|{{(lookup (lookup p \"q\") \"k\")}}y"
+            exp = "x" + e + "|" + txt + "|" + e + "|" + e + "y"
+            case = session({"escape": esc}, [], {"api": "render_template", "src": src}, {"o": {"k": val}, "p": {"q": {"k": val}}, "t": True})
+            case["id"] = "%s-subname%03d" % (ID, dk)
+            dk += 1
+            out.append((case, {"mode": "thm", "expect": exp, "esc": esc, "fam": "subname"}))
+    # directed: a user helper that renders a registered template through the same render context, called from {{{ }}} and from {{ }}:
+    # what the toggle is inside the nested template is not stated (model and crate are compared); what follows the call at the
+    # caller's level is escaped again (checked)
+    for esc in ("html", "mark"):
+        for k, row in enumerate(["{{{a}}}|{{b}}", "{{b}}|{{{a}}}|{{b}}", "{{&a}}{{b}}{{#if t}}{{{a}}}{{b}}{{/if}}", "{{b}}"]):
+            src = "{{{inc \"row\"}}}#{{b}}#{{inc \"row\"}}#{{b}}#{{#if t}}{{{inc \"row\"}}}{{/if}}{{b}}"
+            case = session({"escape": esc, "helpers": [{"name": "inc", "kind": "incl"}]}, [("row", row)], {"api": "render_template", "src": src},
+                           {"a": "<i>", "b": "<b>&", "t": True})
+            case["id"] = "%s-incl%03d" % (ID, dk)
+            dk += 1
+            out.append((case, {"mode": "incl", "tail": escape_of(esc)("<b>&"), "esc": esc}))
     i = 0
-    while len(out) < n + 272:
+    while len(out) < n + 272 + dk:
         r = rng.fork(i)
         i += 1
         if r.chance(0.15):
@@ -179,6 +203,15 @@ def oracle(case, meta, impl):
             v.append("the mapping is not invertible on this chunk")
         if t != "".join(ENT.get(ch, ch) for ch in s):
             v.append("differs from the seven-entity reference mapping")
+        return v
+    if meta["mode"] == "incl":
+        l = last(impl)
+        if l.get("r") != "ok":
+            return ["render failed: %s" % l.get("reason", l.get("r"))]
+        parts = l["out"].split("#")
+        v = []
+        if len(parts) != 5 or parts[1] != meta["tail"] or parts[3] != meta["tail"] or not parts[4].endswith(meta["tail"]):
+            v.append("a {{b}} after the helper call is not escaped once: %r" % l["out"])
         return v
     if meta["mode"] == "thm":
         l = last(impl)
